@@ -198,6 +198,11 @@ def m_touch_order(c):
 def m_observe(c):
     for _ in range(c.rng.choice([1, 2, 3])):
         k = c.key()
+        if c.rng.random() < 0.1:
+            d = c.rng.choice([1, SEC, 3 * SEC])
+            c.lines.append(f"TD {d}")            # an iteration spanning a clock advance
+            c.now += d
+            continue
         c.lines.append(c.rng.choice([f"C {k}", f"C {k}", "T", f"G {k}"]))
 
 
